@@ -270,14 +270,16 @@ pub fn run(ctx: &mut Ctx) {
     super::replay_corpus(ctx, replay);
     ctx.run_suite(&IdleSuite);
     ctx.run_suite(&ConnectSuite);
+    ctx.run_suite(&super::c14tls::HandshakeSuite);
     ctx.assume("virtual time: tokio paused clock with a persistent 0.5 ms offset so that timers fire slightly late, as real timers do");
-    ctx.assume("TLS handshake timeout (real sockets, real time) is exercised by the full-stack scenarios of the thorough tier when available");
+    ctx.assume("TLS handshake timeout: real sockets and real time; a stalled client must be dropped within twice the timeout plus 1.5 s of scheduling slack");
 }
 
 pub fn replay(ctx: &mut Ctx, suite: &str, case: &Value) -> bool {
     match suite {
         "pipe-idle-timer" => ctx.replay_suite(&IdleSuite, case),
         "establishment-timeout" => ctx.replay_suite(&ConnectSuite, case),
+        "tls-handshake-timeout" => ctx.replay_suite(&super::c14tls::HandshakeSuite, case),
         _ => false,
     }
 }
